@@ -49,7 +49,7 @@ class WriterTranslator:
         m = self.repo.lookup_method(self.ci, name)
         if m is None:
             raise AnalysisError(f"writer method {name} vanished")
-        return m
+        return self.repo.flat(m)  # newly extracted helpers / context managers inlined
 
     def term_of(self, name: str) -> list:
         fi = self.method(name)
@@ -190,10 +190,10 @@ class WriterTranslator:
                 if not _is_raise(h.body):
                     raise Unsupported(f"writer: handler that does not raise in {fi.short}")
                 self.conversions.append(f"{fi.short}: {unparse(h.type)} -> {norm(h.body[-1])[:60]}")
-            if s.finalbody or s.orelse:
-                raise Unsupported(f"writer: try/else/finally in {fi.short}")
+            if s.finalbody:
+                raise Unsupported(f"writer: try/finally in {fi.short}")
             out: list = []
-            for b in s.body:  # same scope: names bound here stay visible
+            for b in list(s.body) + list(s.orelse):  # same scope: names bound here stay visible; `else` continues the body
                 out.extend(self.stmt(b, fi, env, depth))
             return out
         if isinstance(s, ast.Raise):
@@ -327,6 +327,7 @@ class ReaderTranslator:
     def term_of(self, fi: FuncInfo) -> list:
         self.counter = 0
         self.pops = 0
+        fi = self.repo.flat(fi)  # newly extracted helpers / context managers inlined
         terms, _ret = self.block(fi.node.body, fi, {}, 0)
         return terms
 
@@ -414,12 +415,12 @@ class ReaderTranslator:
                 toks, _r = self.block(h.body, fi, env, depth)
                 if not (toks and toks[-1][0] == "RAISE"):
                     raise Unsupported(f"reader: handler that does not raise in {fi.short}")
-            if s.orelse or s.finalbody:
-                raise Unsupported(f"reader: try/else/finally in {fi.short}")
+            if s.finalbody:
+                raise Unsupported(f"reader: try/finally in {fi.short}")
             toks = []
             r = None
             stop = False
-            for b in s.body:  # same scope
+            for b in list(s.body) + list(s.orelse):  # same scope; `else` continues the body
                 t, rv, stop = self.stmt(b, fi, env, depth)
                 toks.extend(t)
                 if rv is not None:
@@ -586,6 +587,7 @@ class ReaderTranslator:
             m = self.repo.lookup_method(self.ci, c.func.attr)
             if m is None:
                 raise Unsupported(f"reader: call {fn} in {fi.short} does not resolve")
+            m = self.repo.flat(m)
             if depth > MAXDEPTH:
                 raise Unsupported("reader: inlining depth exceeded")
             formals = [a.arg for a in m.node.args.args if a.arg != "self"]
